@@ -11,6 +11,11 @@ if int(N) >= 10:
              "does not invalidate it), or one that needs a multi-step sequence of public operations (decode, then edit a public field or pass the value "
              "through a builder or another structure, then encode / call a helper) rather than a single call on a single input. ")
 props = {json.loads(l)['id']: json.loads(l) for l in open('/verif/properties.jsonl')}
+if int(N) >= 11:
+    EXTRA += ("Look also at routes that a tester driving the byte-level API would not take: the Value-level API (`to_cbor_value` / `from_cbor_value` on "
+              "`Value` trees assembled by hand, including shapes the byte parser never produces for that content), values whose public fields were "
+              "assigned directly instead of going through builders or decoders, the trait implementations (`Default`, `Clone`, `PartialEq`, `Debug`, "
+              "`Ord`, `From`) where the property depends on them, and the way two otherwise unrelated features meet in one message. ")
 os.makedirs(f'/tmp/seed{N}', exist_ok=True)
 for pid, p in props.items():
     base = f'/tmp/seed{N}/{pid}'
